@@ -12,9 +12,9 @@ pub struct C02;
 impl Prop for C02 {
     fn id(&self) -> &'static str { "C02" }
     fn rule(&self) -> String {
-        "passwords {empty, ASCII, UTF-8 multi-byte, 64 / 65 / 200 bytes, trailing NUL, single 0x80 byte, trailing space / newline / tab, 87-byte passphrase} x plaintext lengths {0, 1, 30, 65536, 65537} x read schedules {full, oneshort, random, halves} and write schedules: \
+        "passwords {empty, ASCII, UTF-8 multi-byte, 64 / 65 / 200 bytes, trailing NUL, single 0x80 byte, trailing space / newline / tab, 87-byte passphrase} x plaintext lengths {0, 1, 30, 65536, 65537} x read schedules {full, oneshort, random, halves} and write schedules (partial writes on the ciphertext sink while encrypting and on the plaintext sink while decrypting): \
          Rust pass_encrypt output == model output, decrypts on both sides to the plaintext; wrong passwords (one-bit neighbour, appended byte, dropped byte, unrelated) must give an error with zero bytes written on both sides; \
-         the two HMAC key-normalisation pairs (NUL padding, long password vs its SHA-256) are run every time and reported as the known finding. non-trivial = distinct (kind, password kind, length, schedule)".into()
+         the two HMAC key-normalisation pairs (NUL padding, long password vs its SHA-256) are run every time and reported as the known finding. round trips through the real binary with -o (|P| in {0, 15, 70000, ...}, output paths empty or already holding an older longer / shorter file): exit 0, the output file exists and equals P. non-trivial = distinct (kind, password kind, length, schedule)".into()
     }
     fn cases(&self, tier: &str, seed: u64) -> Vec<Case> {
         let th = tier == "thorough";
@@ -27,11 +27,13 @@ impl Prop for C02 {
             v.push(case(&[("kind", "rt".into()), ("pwi", i.to_string()), ("len", l.to_string()), ("rk", (*rng.pick(&["full", "oneshort", "random", "halves"])).into()), ("wk", (*rng.pick(&["all", "random", "small"])).into()), ("seed", rng.next().to_string())]));
         } }
         for i in 0..(if th { 60 } else { 14 }) { v.push(case(&[("kind", "wrong".into()), ("pwi", (i % npw).to_string()), ("len", (*rng.pick(&[0usize, 30, 65537])).to_string()), ("rel", (*rng.pick(&["bitflip", "append", "drop", "other"])).into()), ("seed", rng.next().to_string())])); }
+        v.extend(crate::props::clirt::cli_rt_cases("pass", tier, seed));
         v.push(case(&[("kind", "wrong".into()), ("pwi", "1".into()), ("len", "30".into()), ("rel", "nulpad".into()), ("seed", "21".into())]));
         v.push(case(&[("kind", "wrong".into()), ("pwi", "5".into()), ("len", "30".into()), ("rel", "longhash".into()), ("seed", "22".into())]));
         v
     }
     fn run(&self, c: &Case, m: &mut Model) -> Outcome {
+        if get(c, "kind") == "cli-rt" { return crate::props::clirt::run_cli_rt(c, m); }
         let mut o = Outcome::default();
         let mut rng = Rng::new(get(c, "seed").parse().unwrap_or(0));
         let pws = passwords(&mut rng);
@@ -40,10 +42,12 @@ impl Prop for C02 {
         let kind = get(c, "kind");
         o.tags.push(format!("{} pw#{}", kind, getn(c, "pwi")));
         let rs = if kind == "rt" { read_schedule(get(c, "rk"), len, 65536, &mut rng) } else { vec![] };
-        let enc = imp::pass_encrypt(&pw, &salt, &p, &Scripts { rs: &rs, ws: &[], fs: &[] });
+        // the ciphertext sink accepts what the write schedule says (partial writes included): 36 + 32 * chunks + len bytes in all
+        let ews = if kind == "rt" { write_schedule(get(c, "wk"), 36 + 32 * (len / 65536 + 1) + len, &mut rng) } else { vec![] };
+        let enc = imp::pass_encrypt(&pw, &salt, &p, &Scripts { rs: &rs, ws: &ews, fs: &[] });
         if enc.res != "ok" { o.oracle_fail = Some(("encrypt-succeeds".into(), enc.res.clone())); return o; }
         if kind == "rt" {
-            let menc = parse_stream(&m.ask(&format!("pass_encrypt {} {} {} {} - -", hexd(&pw), hex(&salt), hexd(&p), rd_script(&rs)))); o.validated += 1;
+            let menc = parse_stream(&m.ask(&format!("pass_encrypt {} {} {} {} {} -", hexd(&pw), hex(&salt), hexd(&p), rd_script(&rs), wr_script(&ews)))); o.validated += 1;
             o.impl_obs = format!("enc ok {}B", enc.out.len()); o.model_obs = format!("enc {} {}B", menc.res, menc.out.len());
             o.nontrivial = Some(format!("rt/{}/{}/{}/{}", getn(c, "pwi"), len, get(c, "rk"), get(c, "wk")));
             if menc.out != enc.out { o.disagreement = Some("pass_encrypt output differs from the model".into()); }
